@@ -203,7 +203,7 @@ PROPS['C13'] = {
     'packages': ALLPK,
     'functions': ['io/utils.ReadMultiTrees$1', 'io/utils.ReadMultiTrees$1$1', 'io/utils.ReadMultiTrees$1$2', 'io/utils.ReadTreeReader',
                   '(*io/phyloxml.PhyloXML).FirstTree', '(*io/phyloxml.PhyloXML).IterateTrees',
-                  '(*io/nexus.Nexus).FirstTree', '(*io/nexus.Nexus).AddTree', 'io/fileutils.ReadUntilSemiColon'],
+                  '(*io/nexus.Nexus).FirstTree', '(*io/nexus.Nexus).AddTree', 'io/fileutils.ReadUntilSemiColon', ('io/nexus.WriteNexus', {'match': [r'^callsite', r'^step', r'^nilchan']})],
     'trusted_base': TB_COMMON,
     'assumptions': A_COMMON,
     'explanation': 'Relational / agreement contracts on the entry points, proved deductively; format conversion round trips are compositions outside the reach of per-function contracts and are not claimed.',
